@@ -145,9 +145,9 @@ def specs(
                             else:
                                 r1 = draw(nice_float(-histosys_rel, histosys_rel))
                                 r2 = draw(nice_float(-histosys_rel, histosys_rel))
-                                scale = v if v > 0 else 1.0
-                                lo_d.append(float(f"{v + r1 * scale:.6g}"))
-                                hi_d.append(float(f"{v + r2 * scale:.6g}"))
+                                # zero-yield bins stay structurally zero (no rounding-sensitive rates)
+                                lo_d.append(float(f"{v + r1 * v:.6g}"))
+                                hi_d.append(float(f"{v + r2 * v:.6g}"))
                         mods.append({"name": hs, "type": "histosys",
                                      "data": {"lo_data": lo_d, "hi_data": hi_d}})
             if "lumi" in kinds and p(0.25):
